@@ -36,12 +36,15 @@ opts: dict (unknown keys raise NotImplementedError)
                                     ("digests for streams with unknown CRC")
               "none"                no CRCs at all
     "substreams": "always" (default) | "omit"   omit = no SubStreamsInfo block (only possible if every folder has exactly
-              one stream; CRCs then go to the folders)
+              one stream; CRCs then go to the folders).  Optional per 7zFormat.txt ("[] SubStreams Info []", it is how the
+              StreamsInfo of an encoded header looks), but exotic for the main streams: libarchive 3.8 rejects such an
+              archive and old 7-Zip versions may too - use it for robustness tests, not as an equivalence oracle
     "always_num_unpack": bool       write kNumUnPackStream (0x0D) even if every folder has exactly one stream
     "pack_crc": bool                write the optional pack stream digests (kCRC in PackInfo)
     "pack_gap": int                 that many filler bytes before the first pack stream (PackPos = gap)
     "empty_between": bool           insert an empty file "empty<i>.txt" between consecutive members (see with_empty_between)
     "empty_as_header": bool         for zero members write the explicit header `01 00` instead of 7-Zip's 32-byte archive
+                                    (grammatically valid, exotic: libarchive calls it malformed)
   forging opts (honest() is False):
     "aes_folder": k                 folder k gets the 7zAES coder id 06 F1 07 01 with dummy properties; payload is NOT encrypted
     "aes_mode":  "single" (default: the AES coder replaces the folder's coder) | "chain" (two coders 7zAES, <coder> and the
